@@ -22,6 +22,11 @@ CHECKS = {
    note=TB + 'Partial: the whole-history statement (records in emitted packets = accepted calls in order) is checked by the decode oracle on the implementation, not proved (needs the packet-level frame argument). Known finding S9: the capacity test uses the size at the current position. Records of zero bits are excluded (S13).',
    technique='Coq proof (per-call outcome theorems on the state machine) + decode oracle on real packets + differential run',
    ref='5.C03'),
+ 'C04': dict(
+   text='Coq theorems: the packet header written at opening reads back from the generated TSDL as the configured constants (C04_header_roundtrip, instance of the C01 structure theorem); the opening function hands packet_size = 8 x buffer size, the sequence number and the beginning timestamp to the serializer (C04_open_values); in every reachable world the sequence number equals the packets handed over so far and the discarded counter the discards so far (C04_counters); an effective close records content size = position where closing began, parks at packet_size, bumps the sequence number iff the feature exists (C04_close_effective); a late field is skipped at the saved aligned offset and later filled exactly at [saved, saved+size) (C04_fill_position). Oracle on every run: the Coq CTF reader with the parsed REAL metadata decodes every packet handed over by the compiled tracer; magic/UUID/stream id/packet_size/content_size/sequence number/discarded snapshot are compared with counters kept independently; model packets are byte-identical to the real ones.',
+   note=TB + 'Partial: the whole-history composition (the reader decodes the packet context of every emitted packet to those values) is checked by the decode oracle on the implementation, not proved (needs the frame argument for late writes). Feature field types of any size/alignment, sub-byte ones included, are in the generator.',
+   technique='Coq proof (header round trip, value/accessor invariants, late-field placement) + packet decode oracle + differential run',
+   ref='5.C04'),
  'C05': dict(
    text='Coq theorems on the tracer state machine model, for all configurations, oracles and histories: every timestamp written (packet beginning, packet end, record) is the most recent clock sample (C05_ts_is_latest_sample), a record timestamp is the sample taken at the entry of its tracing call (C05_record_ts_is_entry_sample), and under no clock wrap-around the written timestamps are non-decreasing in writing order, hence begin <= records <= end <= next begin (C05_ts_monotone, C05_ts_pairwise). Tie: the model is run against the compiled generated tracer on random histories (callback order, every context field after every call, every packet byte); oracle on the real packets: decoded timestamps are replayed clock samples, ordered.',
    note=TB + 'Modelled: Tracer/Model.v hand-written, tied by correspondence; hypothesis nowrap (no reduction modulo 2^clock bits); that the stored bits are the value modulo the field size is the layout layer (C01/C08).',
